@@ -596,7 +596,7 @@ def plain_cases(draw, key):
         args = [shp]
         form = draw(st.sampled_from(['default', 'type', 'type', 'example-array', 'example-scalar']))
         if form == 'type':
-            kw['dtype'] = draw(st.sampled_from([float, int, complex, bool, np.float64, np.float32, np.int64, np.complex128]))
+            kw['dtype'] = {'__type__': draw(st.sampled_from(sorted(TYPES)))}
         elif form == 'example-array':
             kw['dtype'] = draw(plain_value(-3, 3, kinds=['f64', 'f32', 'i64', '0d']))
         elif form == 'example-scalar':
@@ -665,6 +665,14 @@ def plain_cases(draw, key):
     return case
 
 
+TYPES = {'float': float, 'int': int, 'complex': complex, 'bool': bool, 'numpy.float64': np.float64, 'numpy.float32': np.float32,
+         'numpy.int64': np.int64, 'numpy.complex128': np.complex128}
+
+
+def _kwval(v):
+    return TYPES[v['__type__']] if isinstance(v, dict) and '__type__' in v else v
+
+
 HAS_GENERATOR = set(ELEMWISE1) | {'minimum', 'maximum', 'pow', 'polygamma', 'hyperu', 'hyp1f1', 'hyp0f1', 'sum', 'prod', 'trace',
                                   'triu', 'tril', 'diag', 'transpose', 'reshape', 'tile', 'zeros', 'ones', 'zeros_like', 'ones_like',
                                   'dot', 'outer', 'inv', 'det', 'eig', 'lu', 'logdet', 'eigh', 'cholesky', 'qr', 'svd', 'qr_full',
@@ -719,7 +727,7 @@ def prop_plain(case, stats):
         ref = DOCUMENTED_ALIAS[name]
     args = [np.array(a, copy=True) if isinstance(a, np.ndarray) else a for a in case['args']]
     rargs = [np.array(a, copy=True) if isinstance(a, np.ndarray) else a for a in case['args']]
-    kw = dict(case.get('kw', {}))
+    kw = {k: _kwval(v) for k, v in case.get('kw', {}).items()}
     what = '%s.%s(%s%s)' % (ent['module'], name, ', '.join(_fmt_arg(a) for a in args),
                             ''.join(', %s=%s' % (k, _fmt_arg(v) if not isinstance(v, type) else v.__name__) for k, v in sorted(kw.items())))
     rkw = dict(kw)
@@ -742,7 +750,7 @@ def cls_plain(case):
         else:
             c.append('arg=' + type(a).__name__)
     for k, v in case.get('kw', {}).items():
-        c.append('kw=%s:%s' % (k, 'type' if isinstance(v, type) else type(v).__name__))
+        c.append('kw=%s:%s' % (k, 'type' if isinstance(v, dict) else type(v).__name__))
     if case.get('steered'):
         c.append('steered:' + case['steered'])
     return c
@@ -789,10 +797,10 @@ def buckets(tier):
     for name, op in ops.REG.items():
         heavy = op.family == 'linalg'
         add('a:' + name, op.cases, prop_reg, op.n[0], op.n[1], nt_reg, cls_reg, 3.0 if heavy else 1.0)
-    add('a:argmax', ops.ARGMAX_CASES, prop_argmax, 40, 600, nt_reg, cls_reg)
+    add('a:argmax', ops.ARGMAX_CASES, prop_argmax, 80, 600, nt_reg, cls_reg)
     # (a) shape-manipulating operations (generators shared with C13)
     add('a:getitem', lambda: _shape_cases(st.one_of(sh.getitem_cases('tuple'), sh.getitem_cases('bare')), 'getitem'),
-        prop_shape, 120, 2000, nt_shape, cls_shape, 2.0)
+        prop_shape, 240, 2000, nt_shape, cls_shape, 2.0)
     shape_ops = [('reshape', sh.reshape_cases), ('transpose', sh.transpose_cases), ('sum', sh.sum_cases), ('tile', sh.tile_cases),
                  ('diag', sh.diag_cases), ('triu', lambda: sh.tri_cases('triu')), ('tril', lambda: sh.tri_cases('tril')),
                  ('trace', sh.trace_cases), ('symvec', sh.symvec_cases), ('vecsym', sh.vecsym_cases),
@@ -800,16 +808,16 @@ def buckets(tier):
                  ('real', lambda: sh.unary_cases('real')), ('imag', lambda: sh.unary_cases('imag')),
                  ('fft', lambda: sh.fft_cases('fft')), ('ifft', lambda: sh.fft_cases('ifft'))]
     for name, cases in shape_ops:
-        add('a:' + name, (lambda cases=cases: _shape_cases(cases(), 'op')), prop_shape, 40, 600, nt_shape, cls_shape, 1.5)
+        add('a:' + name, (lambda cases=cases: _shape_cases(cases(), 'op')), prop_shape, 80, 600, nt_shape, cls_shape, 1.5)
     for fam in ('zeros', 'ones', 'like'):
-        add('a:construct-' + fam, (lambda fam=fam: _shape_cases(sh.construct_cases(fam), 'construct')), prop_shape, 40, 500,
+        add('a:construct-' + fam, (lambda fam=fam: _shape_cases(sh.construct_cases(fam), 'construct')), prop_shape, 80, 500,
             nt_shape, cls_shape)
     # (b) comparisons
     for o in CMP:
         for kinds in ('UU', 'US', 'SU', 'UA', 'AU'):
-            add('b:%s:%s' % (o, kinds), (lambda o=o, kinds=kinds: cmp_cases(o, kinds)), prop_cmp, 60, 1000, nt_cmp, cls_cmp)
+            add('b:%s:%s' % (o, kinds), (lambda o=o, kinds=kinds: cmp_cases(o, kinds)), prop_cmp, 120, 1000, nt_cmp, cls_cmp)
     # (c) plain-argument dispatch
     cov, _ = covered_names()
     for key in cov:
-        add('c:' + key, (lambda key=key: plain_cases(key)), prop_plain, 40, 500, nt_plain, cls_plain)
+        add('c:' + key, (lambda key=key: plain_cases(key)), prop_plain, 80, 500, nt_plain, cls_plain)
     return B
